@@ -5,6 +5,7 @@ mod c13;
 mod coqw;
 mod enumgen;
 mod enumprops;
+mod foldprops;
 mod gen;
 mod prng;
 mod ser;
@@ -54,6 +55,8 @@ fn main() {
         "C10" => enumprops::run_c10(&o),
         "C12" => enumprops::run_c12(&o),
         "C15" => enumprops::run_c15(&o),
+        "C03" => foldprops::run_c03(&o),
+        "C05F" => foldprops::run_c05fold(&o),
         _ => { eprintln!("unknown property {prop}"); std::process::exit(2); }
     };
     rep.write(&o.outdir).expect("write report");
